@@ -41,12 +41,16 @@ KERNELS = {
         ("k_chain", "\tvaddpd\t%xmm0, %xmm1, %xmm0\n\tvmulpd\t%xmm0, %xmm2, %xmm3\n\tvaddpd\t%xmm3, %xmm0, %xmm0\n\taddq\t$8, %rax\n\tcmpq\t%rax, %rcx\n\tjne\t.L1\n"),
         ("k_mem", "\tvmovsd\t8(%rax), %xmm1\n\tvaddsd\t16(%rax), %xmm1, %xmm2\n\tvmovsd\t%xmm2, 8(%rax)\n\taddq\t$8, %rax\n\tjne\t.L1\n"),
         ("k_unknown", "\tvaddpd\t%xmm0, %xmm1, %xmm0\n\tfrobnicate\t%xmm0, %xmm1\n\taddq\t$8, %rax\n\tjne\t.L1\n"),
+        ("k_rmw", "\taddq\t$1, 8(%rax)\n\tpushq\t-8(%r13)\n\tvaddpd\t16(%rbx), %ymm0, %ymm1\n\taddl\t%ecx, (%rdx)\n\taddq\t$8, %rax\n\tjne\t.L1\n"),
+        ("k_loads", "\tmovq\t8(%rax), %rcx\n\tvmovapd\t16(%rbx), %ymm2\n\tmovl\t(%rdx), %esi\n\tvaddpd\t-8(%r13), %ymm2, %ymm3\n\taddq\t$8, %rax\n\tjne\t.L1\n"),
     ],
     "aarch64": [
         ("k_triad", "\tldr\tq0, [x1, x3]\n\tldr\tq1, [x2, x3]\n\tfmla\tv0.2d, v1.2d, v2.2d\n\tstr\tq0, [x0, x3]\n\tadd\tx3, x3, #16\n\tcmp\tx3, x4\n\tb.ne\t.L2\n"),
         ("k_chain", "\tfadd\td0, d0, d1\n\tfmul\td2, d0, d3\n\tfadd\td0, d2, d0\n\tadd\tx3, x3, #8\n\tcmp\tx3, x4\n\tb.ne\t.L1\n"),
         ("k_mem", "\tldr\td1, [x0, #8]\n\tfadd\td2, d1, d3\n\tstr\td2, [x0, #8]\n\tldp\tq4, q5, [x9], #64\n\tadd\tx0, x0, #8\n\tb.ne\t.L1\n"),
         ("k_unknown", "\tfadd\td0, d0, d1\n\tfrobnicate\td0, d1\n\tadd\tx3, x3, #8\n\tb.ne\t.L1\n"),
+        ("k_rmw", "\tldr\tq0, [x1, x3]\n\tfmla\tv0.2d, v1.2d, v2.2d\n\tstr\tq0, [x1, x3]\n\tstp\tq4, q5, [x10, #-32]!\n\tldp\tq6, q7, [x9], #64\n\tadd\tx3, x3, #16\n\tb.ne\t.L1\n"),
+        ("k_loads", "\tldr\td1, [x0, #8]\n\tldr\tq2, [x1, x3]\n\tldp\tq4, q5, [x9, #-32]\n\tfadd\td2, d1, d3\n\tadd\tx0, x0, #8\n\tb.ne\t.L1\n"),
     ],
 }
 OPTION_SETS = [[], ["--fixed"], ["-f"], ["--ignore-unknown"], ["--fixed", "-f"]]
@@ -251,6 +255,8 @@ def spawn_osaca(sim, fs, m, name, analyses, records, gates=None, fault=None, wai
                 except BaseException:
                     pass
             sim.ev("analysis", i, rec["status"])
+        # normal interpreter exit of this process: its atexit handlers run (inside the simulation)
+        procs.run_exit_handlers()
 
     t = sim.spawn(name, body, kind="proc")
     t.attrs["pid"] = pid
